@@ -87,8 +87,8 @@ def readLine (ws : List String) : Option IL :=
   | "define" :: n :: b => (readBody b).map (fun x => .c (.plain (.define n x)))
   | ["error"] => some (.c (.plain .error))
   | ["other"] => some (.c (.plain .other))
-  | ["include", "q", n] => some (.include true n)
-  | ["include", "a", n] => some (.include false n)
+  | ["include", "q", n] => some (.incl true n)
+  | ["include", "a", n] => some (.incl false n)
   | ["include_next", n] => some (.includeNext n)
   | ["once"] => some .pragmaOnce
   | _ => none
@@ -196,7 +196,7 @@ partial def inclLoop (h : IO.FS.Stream) (a : Acc) : IO UInt32 := do
   | ["opt", "U", n] => inclLoop h { a with opts := a.opts ++ [.U n] }
   | ["opt", "I", d] => inclLoop h { a with opts := a.opts ++ [.I d] }
   | ["opt", "after", d] => inclLoop h { a with opts := a.opts ++ [.idirafter d] }
-  | ["opt", "include", f] => inclLoop h { a with opts := a.opts ++ [.include f] }
+  | ["opt", "include", f] => inclLoop h { a with opts := a.opts ++ [.inc f] }
   | ws =>
     match readLine ws with
     | some l => inclLoop h { a with cur := l :: a.cur }
